@@ -24,5 +24,8 @@ class TrashDirReader:
     def list_trashinfo(self, path):
         info_dir = os.path.join(path, 'info')
         for entry in self.dir_reader.entries_if_dir_exists(info_dir):
-            if entry.endswith('.trashinfo') and entry != '.trashinfo':
+            # '', '.' and '..' name no payload: files/. is files/ itself and
+            # files/.. is the trash directory
+            if (entry.endswith('.trashinfo')
+                    and entry[:-len('.trashinfo')] not in ('', '.', '..')):
                 yield os.path.join(info_dir, entry)
